@@ -140,6 +140,12 @@ F = [
   "Exp reported Overflow for arguments a hair above a multiple of 23 (the working precision was derived from |x| rounded to a float64): Exp(3611.0000000000000000001) P=41 Emax=100000 returned Infinity",
   {"C12": [ar("exp", ctx(41, 100000, -100000, "down"), dec("36110000000000000000001", -19)), ar("exp", ctx(41, 100000, -100000, "down"), dec("98900000000000004", -14)),
            ar("exp", ctx(5, 1000, -1000, "half_even"), dec("11500000000000000000001", -20))]}),
+ ("D48", "Exp estimates its number of series terms without leaving the float64 range",
+  "Exp returned exactly 1 for arguments below about 1E-308 at precisions that can still represent 1+x (the series' term-count estimate divides by the argument converted to float64, which underflows to 0): Exp(1E-330) at Precision 400, Exp(9E-307) at Precision 512 (remarked by a seeding sub-agent; C12's high-precision class extended to tiny arguments)",
+  {"C12": [ar("exp", ctx(512, 10000, -10000, "down"), dec(9, -307)), ar("exp", ctx(400, 10000, -10000, "half_even"), dec(1, -330))]}),
+ ("D47", "Exp's underflow result carries an exponent the package can represent",
+  "Exp's underflow answer was a zero with exponent Etiny even when that lies below the package's MinExponent: Exp(-4E+99999) at Precision 2, MinExponent -100000 returned 0E-100001, whose String() the parser rejects (found by C13's new class: whatever an operation returns must round-trip)",
+  {"C13": [{"kind": "result", "x": Z, "dirty": Z, "cap": 0, "bits": 0, "op": ar("exp", ctx(2, 100000, -100000, "up"), dec(4, 99999, True))}]}),
  ("D46", "Ln stops its power series when every further term is negligible",
   "Ln (and Log10, Pow through it) failed with 'exponent out of range' for arguments within about 1E-33322 of 1, whose logarithm is far inside the range: Ln(1+1E-33322) at Precision 16 (found when a generator class for a seeded hang in that loop was added)",
   {"C12": [ar("ln", ctx(16, 100000, -100000, "half_even"), dec("1" + "0" * 33321 + "1", -33322)),
